@@ -597,29 +597,62 @@ func ruleLookupPanics(cx *Ctx) []Obligation {
 		}
 	}
 	// the patterns are matched against the identifier itself: the language analysis of the registry (own / exclusive
-	// / unsupported templates) describes the lookup only if no rewriting of the identifier precedes the match
+	// / unsupported templates) describes the lookup only if no rewriting of the identifier precedes the match. The
+	// match may sit in a helper the lookup calls with its own parameter.
 	nMatch := 0
-	for _, b := range fn.Blocks {
-		for _, ins := range b.Instrs {
-			c, ok := ins.(*ssa.Call)
-			if !ok {
-				continue
-			}
-			g := c.Common().StaticCallee()
-			if g == nil || g.Pkg == nil || g.Pkg.Pkg.Path() != "regexp" || len(c.Common().Args) < 2 {
-				continue
-			}
-			switch g.Name() {
-			case "FindStringSubmatch", "MatchString", "FindString", "FindStringSubmatchIndex", "FindStringIndex":
-				nMatch++
-				if c.Common().Args[1] != ssa.Value(fn.Params[0]) {
-					return []Obligation{bad("C18/lookup/matches-raw-id", "the registry patterns are matched against the gate identifier itself (no rewritten or truncated copy)", "the string matched at "+P.Pos(c.Pos())+" is "+c.Common().Args[1].String()+", not the identifier parameter: unanchored patterns then also match identifiers of other gates", P.Pos(c.Pos()))}
+	var scan func(f *ssa.Function, idParam ssa.Value, depth int) string
+	scan = func(f *ssa.Function, idParam ssa.Value, depth int) string {
+		for _, b := range f.Blocks {
+			for _, ins := range b.Instrs {
+				c, ok := ins.(*ssa.Call)
+				if !ok {
+					continue
+				}
+				g := c.Common().StaticCallee()
+				if g == nil {
+					continue
+				}
+				if g.Pkg != nil && g.Pkg.Pkg.Path() == "regexp" && len(c.Common().Args) >= 2 {
+					switch g.Name() {
+					case "FindStringSubmatch", "MatchString", "FindString", "FindStringSubmatchIndex", "FindStringIndex":
+						nMatch++
+						if c.Common().Args[1] != idParam {
+							return "the string matched at " + P.Pos(c.Pos()) + " is " + c.Common().Args[1].String() + ", not the identifier parameter: unanchored patterns then also match identifiers of other gates"
+						}
+					}
+					continue
+				}
+				if depth < 2 && P.InModule(g) && len(g.Blocks) > 0 {
+					// a helper that receives the identifier: follow it with the parameter bound to the identifier
+					for ai, a := range c.Common().Args {
+						if a == idParam && ai < len(g.Params) {
+							if why := scan(g, g.Params[ai], depth+1); why != "" {
+								return why
+							}
+						}
+					}
+					// a helper that matches something else than what it was given is found by scanning it too
+					if depth == 0 {
+						passes := false
+						for _, a := range c.Common().Args {
+							if a == idParam {
+								passes = true
+							}
+						}
+						if !passes && fnPkgShort(g) == "plonk/gates" && callsRegexpMatch(g) {
+							return "the lookup matches through " + P.FnName(g) + " without handing it the identifier parameter (" + P.Pos(c.Pos()) + ")"
+						}
+					}
 				}
 			}
 		}
+		return ""
+	}
+	if why := scan(fn, fn.Params[0], 0); why != "" {
+		return []Obligation{bad("C18/lookup/matches-raw-id", "the registry patterns are matched against the gate identifier itself (no rewritten or truncated copy)", why)}
 	}
 	if nMatch == 0 {
-		return []Obligation{undecided("C18/lookup/matches-raw-id", "the registry patterns are matched against the gate identifier itself", "no regexp match call found in the lookup")}
+		return []Obligation{undecided("C18/lookup/matches-raw-id", "the registry patterns are matched against the gate identifier itself", "no regexp match call found in the lookup or the helpers it hands the identifier to")}
 	}
 	// the block after the iteration must refuse
 	for _, b := range fn.Blocks {
@@ -732,6 +765,22 @@ func errLeadsToRefusal(c *ssa.Call) bool {
 				}
 				if fi.Refuse[blk.Succs[idx].Index] {
 					return true
+				}
+			}
+		}
+	}
+	return false
+}
+
+func callsRegexpMatch(f *ssa.Function) bool {
+	for _, b := range f.Blocks {
+		for _, ins := range b.Instrs {
+			if c, ok := ins.(*ssa.Call); ok {
+				if g := c.Common().StaticCallee(); g != nil && g.Pkg != nil && g.Pkg.Pkg.Path() == "regexp" {
+					switch g.Name() {
+					case "FindStringSubmatch", "MatchString", "FindString", "FindStringSubmatchIndex", "FindStringIndex":
+						return true
+					}
 				}
 			}
 		}
